@@ -476,15 +476,21 @@ func canonMAC(s string) string {
 // killed by a crash) when the database is next examined, and another request of the same client may already
 // have been answered from the in-memory record the failed save left behind.
 func (s *lease4) applyFaultTags(w *World) {
-	for ; s.faultTagsSeen < len(w.Sim.SQLFaultTags); s.faultTagsSeen++ {
-		dg := w.dgByID[w.Sim.SQLFaultTags[s.faultTagsSeen]]
+	for ; s.faultTagsSeen < len(w.Sim.SQLEvents); s.faultTagsSeen++ {
+		ev := w.Sim.SQLEvents[s.faultTagsSeen]
+		dg := w.dgByID[ev.Tag]
 		if dg == nil || dg.Req4 == nil {
 			continue
 		}
 		mac := macKey(dg.Req4.ClientHWAddr)
-		if !s.volatile[mac] {
+		switch {
+		case !ev.OK && !s.volatile[mac]:
 			s.volatile[mac] = true
 			w.Probe("range.save_failed")
+		case ev.OK && s.volatile[mac]:
+			// a later store call of the same client went through (the plugin writes the whole row): durable again
+			delete(s.volatile, mac)
+			w.Probe("range.save_recovered")
 		}
 	}
 }
